@@ -111,6 +111,14 @@ def block_machines():
     opss = [[("start", [], []), ("process", 4, 1, val, []), ("process", 5, 2, val, []), ("process", 6, 3, val, []),
              ("process", 5, 4, val, []), ("process", 4, 5, val, [])] for val in ([], [3])]
     out.append(("ortho_interrupt", md, opss))
+    # one event makes region 0 terminate and region 1 interrupted: the end-interrupt event must stay blocked
+    both = machine([state(zone=0), state(kind="term", zone=0), state(zone=1), state(kind=["intr", 6, 7], zone=1), state(zone=2), state(zone=2)], [0, 2, 4],
+                   [row(1, 0, 4, 1, act="call"), row(2, 2, 4, 3, act="call"), row(3, 3, 6, 2, act="call"), row(4, 3, 7, 2, guard=True, act="call"),
+                    row(5, 4, 6, 5, act="call"), row(6, 5, 5, 4)])
+    md = mdef(both, 4)
+    opss = [[("start", [], []), ("process", 4, 1, val, []), ("process", 6, 2, val, []), ("process", 7, 3, val, []),
+             ("process", 5, 4, val, []), ("process", 6, 5, val, [])] for val in ([], [4])]
+    out.append(("ortho_terminate_and_interrupt", md, opss))
     return out
 
 def pseudo_machines():
@@ -121,10 +129,48 @@ def pseudo_machines():
            ("process", 6, 4, [], []), ("process", 7, 5, [], [])]
     return [("exitpt_outside", md, [ops])]
 
+def fork_machines():
+    """a fork that names two of three regions; the third region must follow the history policy on every re-entry"""
+    out = []
+    for hname, hist in (("none", "none"), ("shallow_other", ["shallow", 7]), ("shallow_fork", ["shallow", 4]), ("always", "always")):
+        a1 = state(zone=0); a1["explicit"] = True
+        b1 = state(zone=1); b1["explicit"] = True
+        sub = machine([state(zone=0), a1, state(zone=1), b1, state(zone=2), state(zone=2)], [0, 2, 4],
+                      [row(10, 0, 5, 1), row(11, 2, 5, 3), row(12, 4, 7, 5, act="call"), row(13, 5, 7, 4), row(14, 1, 5, 0), row(15, 3, 5, 2)],
+                      hist=hist)
+        root = machine([state(), state(sub=sub)], [0],
+                       [row(1, 0, 4, ["direct", 1, [1, 3]], act="call"), row(2, 1, 6, 0), row(3, 0, 8, 1), row(4, 0, 9, ["direct", 1, [1]])])
+        md = mdef(root, 6)
+        ops = [("start", [], []), ("process", 4, 1, [], []), ("process", 7, 2, [], []), ("process", 6, 3, [], []),
+               ("process", 4, 4, [], []), ("process", 6, 5, [], []), ("process", 8, 6, [], []), ("process", 7, 7, [], []),
+               ("process", 6, 8, [], []), ("process", 9, 9, [], []), ("process", 6, 10, [], []), ("process", 4, 11, [], [])]
+        out.append(("fork_partial_" + hname, md, [ops]))
+    return out
+
+def throw_machines():
+    """every behaviour position of a step (including the completion transitions it triggers and the behaviours of a
+    submachine entered by it) as the throw point, each followed by the same continuation"""
+    out = []
+    sub = machine([state(), state()], [0], [row(20, 0, 5, 1, guard=True, act="call"), row(21, 1, "none", 0, guard=True, act="call")])
+    root = machine([state(), state(), state(), state(sub=sub), state()], [0],
+                   [row(1, 0, 4, 1, guard=True, act="call"), row(2, 1, "none", 2, guard=True, act="call"), row(3, 1, 5, 4, act="call"),
+                    row(4, 2, 5, 3, act="call"), row(5, 3, 6, 0, act="call"), row(6, 4, 6, 0), row(7, 2, "none", 2, guard=True)])
+    md = mdef(root, 4)
+    val = [1, 2, 20, 21]
+    opss = []
+    for k in range(0, 9):
+        for first in (4, 5):
+            ops = [("start", [], []), ("process", 4, 1, val, [(k, ("throw",))] if first == 4 else []),
+                   ("process", 5, 2, val, [(k, ("throw",))] if first == 5 else []), ("process", 5, 3, val, []),
+                   ("process", 6, 4, val, []), ("process", 4, 5, val, []), ("process", 5, 6, val, [])]
+            opss.append(ops)
+    out.append(("throw_positions", md, opss))
+    return out
+
 def main():
     os.makedirs(os.path.join(VERIF, "corpus"), exist_ok=True)
     n = 0
-    for name, md, opss in fwd_machines() + ortho_machines() + block_machines() + pseudo_machines():
+    for name, md, opss in fwd_machines() + ortho_machines() + block_machines() + pseudo_machines() + fork_machines() + throw_machines():
         save(name, md, opss)
         n += 1
     print("wrote %d corpus machines" % n)
